@@ -115,8 +115,71 @@ def lin2(a: str, b: str) -> str:
     f.append("eq=" + guard(eq))
     return " | ".join(f)
 
+def text_terms(s: str):
+    """combination whose strings are raw texts for the parser (hex coded)"""
+    if s == "-":
+        return []
+    out = []
+    for t in s.split(","):
+        c, p = t.split("*")
+        out.append((coef_in(c), unhx(p)))
+    return out
+
+def obs(x) -> str:
+    if not isinstance(x, PauliStringLinear):
+        return "?" + type(x).__name__
+    f = []
+    f.append("tr=" + guard(lambda: coef_out(x.trace())))
+    f.append("size=" + guard(lambda: str(x.get_size())))
+    f.append("len=" + guard(lambda: str(len(x))))
+    f.append("zero=" + guard(lambda: B(x.is_zero())))
+    f.append("simp=" + guard(lambda: show_lin(x.simplify())))
+    f.append("sq=" + guard(lambda: show_lin(x @ x.h)))
+    f.append("mat=" + guard(lambda: show_mat(x.get_matrix())))
+    f.append("str=" + guard(lambda: str(x)))
+    return " | ".join(f)
+
+def linhist(line: str) -> str:
+    parts = line[8:].split("|")
+    outs = []
+    try:
+        x = PauliStringLinear(text_terms(parts[0])); st = "ok"
+    except Exception as e:
+        x = PauliStringLinear([]); st = exc_name(e)
+    outs.append(st + "@" + obs(x))
+    for op in parts[1:]:
+        t = op.split(" ")
+        st = "ok"
+        try:
+            if t[0] == "iadd":
+                y = PauliStringLinear(text_terms(t[1]))
+                old = x
+                x += y
+                if x is not old: st = "?iadd rebinds"
+            elif t[0] == "add":
+                x = x + PauliStringLinear(text_terms(t[1]))
+            elif t[0] == "cancel":
+                x = x + x * (-1)
+            elif t[0] == "smul":
+                x = x * coef_in(t[1])
+            elif t[0] == "mm":
+                x = x @ PauliStringLinear(text_terms(t[1]))
+            elif t[0] == "rmm":
+                x = PauliStringLinear(text_terms(t[1])) @ x
+            elif t[0] == "simp":
+                x = x.simplify()
+            elif t[0] == "h":
+                x = x.h
+            else:
+                return "bad-op"
+        except Exception as e:
+            st = exc_name(e)
+        outs.append(st + "@" + obs(x))
+    return " || ".join(outs)
+
 def handle(line: str) -> str:
     t = line.split(" ")
     if t[0] == "lin1" and len(t) == 4: return lin1(t[1], t[2], t[3])
     if t[0] == "lin2" and len(t) == 3: return lin2(t[1], t[2])
+    if t[0] == "linhist": return linhist(line)
     return "bad-op"
